@@ -352,10 +352,13 @@ func (s *session) concretise(kind string, from int, variant uint64) (*dss.Partia
 }
 
 type sessions struct {
-	mu   sync.Mutex
-	m    map[string]*session
-	errs map[string]string
-	seed int64
+	mu       sync.Mutex
+	m        map[string]*session
+	errs     map[string]string
+	seed     int64
+	res      *core.Result
+	prop     string
+	panicked bool
 }
 
 func (ss *sessions) get(src string, n, t int) *session {
@@ -365,7 +368,16 @@ func (ss *sessions) get(src string, n, t int) *session {
 	if s, ok := ss.m[k]; ok {
 		return s
 	}
-	s, err := newSession(src, n, t, ss.seed)
+	var s *session
+	var err error
+	if msg, stack, pn := core.Try(func() { s, err = newSession(src, n, t, ss.seed) }); pn {
+		s, err = nil, fmt.Errorf("panic: %s", msg)
+		ss.panicked = true
+		if ss.res != nil {
+			ss.res.Violate(fmt.Sprintf("%s/%s/setup/panic", ss.prop, src), "panic while the honest participants set up a DSS session: "+msg,
+				map[string]any{"source": src, "n": n, "t": t, "stack": stack})
+		}
+	}
 	if err != nil {
 		ss.errs[k] = err.Error()
 		s = nil
@@ -411,6 +423,22 @@ func replayDSS(prop string, s *session, bh DBehaviour, id string, res *core.Resu
 		label := caseLabel(st, selfFirst)
 		ev.Eval(fmt.Sprintf("%s n%d t%d %s", s.src, s.n, s.t, id+fmt.Sprint(k)))
 		switch st.Op {
+		case "verifyall":
+			// final phase: all participants verify the combined signature at the same time
+			var sig []byte
+			var serr error
+			if msg, stack, pn := core.Try(func() { sig, serr = d.Signature() }); pn {
+				viol("final", "Signature", "panic", k, "signature", msg+"\n"+stack)
+				return k
+			}
+			if serr != nil {
+				viol("final", "Signature", "refused-with-t-partials", k, "signature", serr.Error())
+				return k
+			}
+			verifyConcurrently(s, st.From, sig, pub, pubBytes, func(verifier, kind string, got any) {
+				viol("final", "concurrent:"+verifier, kind, k, st.Res, got)
+			})
+			continue
 		case "sign":
 			ps, err := d.PartialSig()
 			if err != nil || ps == nil || int(ps.Partial.I) != p {
@@ -489,24 +517,97 @@ func replayDSS(prop string, s *session, bh DBehaviour, id string, res *core.Resu
 		if !first && core.Hash64(id, fmt.Sprint(k))%16 != 0 {
 			continue
 		}
-		if err := dss.Verify(pub, s.msg, sig); err != nil {
-			viol(label, "Signature", "dss.Verify-fails", k, "verifies", err.Error())
+		for _, vf := range verifiers(s, pub, pubBytes) {
+			var verr error
+			if msg, stack, pn := core.Try(func() { verr = vf.run(s.msg, sig) }); pn {
+				viol(label, "Signature", vf.name+"-panics", k, "verifies", msg+"\n"+stack)
+				return k
+			}
+			if verr != nil {
+				viol(label, "Signature", vf.name+"-fails", k, "verifies", verr.Error())
+				return k
+			}
+		}
+		var other error
+		if msg, stack, pn := core.Try(func() { other = eddsa.Verify(pub, s.msg2, sig) }); pn {
+			viol(label, "Signature", "eddsa.Verify-panics", k, "rejected", msg+"\n"+stack)
 			return k
 		}
-		if err := eddsa.Verify(pub, s.msg, sig); err != nil {
-			viol(label, "Signature", "eddsa.Verify-fails", k, "verifies", err.Error())
-			return k
-		}
-		if !ed25519.Verify(ed25519.PublicKey(pubBytes), s.msg, sig) {
-			viol(label, "Signature", "crypto/ed25519.Verify-fails", k, "verifies", "false")
-			return k
-		}
-		if eddsa.Verify(pub, s.msg2, sig) == nil {
+		if other == nil {
 			viol(label, "Signature", "verifies-for-another-message", k, "rejected", "verifies")
 			return k
 		}
 	}
 	return len(bh) - 1
+}
+
+type verifier struct {
+	name string
+	run  func(msg, sig []byte) error
+}
+
+// verifiers are the ordinary signature verifiers the combined signature must pass under the distributed key.
+func verifiers(s *session, pub kyber.Point, pubBytes []byte) []verifier {
+	return []verifier{
+		{"dss.Verify", func(m, sg []byte) error { return dss.Verify(pub, m, sg) }},
+		{"eddsa.Verify", func(m, sg []byte) error { return eddsa.Verify(pub, m, sg) }},
+		{"schnorr.Verify", func(m, sg []byte) error { return schnorr.Verify(s.suite, pub, m, sg) }},
+		{"crypto/ed25519.Verify", func(m, sg []byte) error {
+			if !ed25519.Verify(ed25519.PublicKey(pubBytes), m, sg) {
+				return fmt.Errorf("crypto/ed25519.Verify returned false")
+			}
+			return nil
+		}},
+	}
+}
+
+// verifyConcurrently lets `parts` participants verify the same signature at the same time (goroutines
+// released together), each through every verifier, a few rounds each. report is called once per
+// (verifier, kind) that failed.
+func verifyConcurrently(s *session, parts int, sig []byte, pub kyber.Point, pubBytes []byte, report func(verifier, kind string, got any)) {
+	if parts < 2 {
+		parts = 2
+	}
+	const rounds = 4
+	type fail struct {
+		verifier, kind, got string
+	}
+	start := make(chan struct{})
+	out := make(chan fail, parts*8)
+	var wg sync.WaitGroup
+	for g := 0; g < parts; g++ {
+		wg.Add(1)
+		go func(g int) {
+			defer wg.Done()
+			vs := verifiers(s, pub.Clone(), append([]byte(nil), pubBytes...))
+			mine := append([]byte(nil), sig...)
+			msg := append([]byte(nil), s.msg...)
+			<-start
+			for r := 0; r < rounds; r++ {
+				for _, vf := range vs {
+					var verr error
+					if m, stack, pn := core.Try(func() { verr = vf.run(msg, mine) }); pn {
+						out <- fail{vf.name, "panic", m + "\n" + stack}
+						return
+					}
+					if verr != nil {
+						out <- fail{vf.name, "rejected", fmt.Sprintf("participant %d round %d: %v", g, r, verr)}
+						return
+					}
+				}
+			}
+		}(g)
+	}
+	close(start)
+	wg.Wait()
+	close(out)
+	seen := map[string]bool{}
+	for f := range out {
+		if !seen[f.verifier+f.kind] {
+			seen[f.verifier+f.kind] = true
+			report(f.verifier, f.kind, f.got)
+		}
+	}
 }
 
 // RunDSS replays DSS behaviours for every key source.
@@ -519,7 +620,7 @@ func RunDSS(cfg DSSConfig, res *core.Result) error {
 	if len(srcs) == 0 {
 		return fmt.Errorf("no key source selected")
 	}
-	ss := &sessions{m: map[string]*session{}, errs: map[string]string{}, seed: cfg.Seed}
+	ss := &sessions{m: map[string]*session{}, errs: map[string]string{}, seed: cfg.Seed, res: res, prop: cfg.Prop}
 	workers := runtime.GOMAXPROCS(0)
 	evs := make([]evalBatch, workers)
 	per := make([]map[string]int, workers)
@@ -551,7 +652,12 @@ func RunDSS(cfg DSSConfig, res *core.Result) error {
 					res.Skip(fmt.Sprintf("no %s keys for n=%d t=%d", src, bh[0].N, bh[0].T))
 					continue
 				}
-				steps[w] += replayDSS(cfg.Prop, s, bh, fmt.Sprintf("b%d ", j), res, &evs[w])
+				if msg, stack, pn := core.Try(func() {
+					steps[w] += replayDSS(cfg.Prop, s, bh, fmt.Sprintf("b%d ", j), res, &evs[w])
+				}); pn {
+					res.Violate(fmt.Sprintf("%s/%s/replay/panic", cfg.Prop, src), "panic in library code while replaying a DSS behaviour: "+msg,
+						map[string]any{"behaviour": bh, "source": src, "stack": stack})
+				}
 				per[w][src]++
 				if j%1777 == 0 {
 					res.Sample(map[string]any{"keys": src, "behaviour": bh})
@@ -585,7 +691,7 @@ func RunDSS(cfg DSSConfig, res *core.Result) error {
 			made++
 		}
 	}
-	if made == 0 {
+	if made == 0 && !ss.panicked {
 		return fmt.Errorf("no session could be set up: %v", ss.errs)
 	}
 	res.AddTraces(total)
